@@ -327,6 +327,8 @@ def project_node(s, nd):
     if k == "accumulate":
         return [] if s.state is score.no_default else [enc(s.state)]
     if k == "slice":
+        if not isinstance(s.state, int):
+            raise TypeError("unknown representation")
         return {"cnt": s.state}
     if k == "partition":
         return [{"k": ["i", -1] if key is None else enc(key), "buf": [enc(x) for x in s._buffer[key]],
@@ -335,6 +337,8 @@ def project_node(s, nd):
         return [{"k": enc(key), "x": enc(s._buffer[key]), "md": enc_md(s._metadata_buffer[key])}
                 for key in list(s._buffer.keys())]
     if k == "sliding_window":
+        if isinstance(s._buffer, dict) or isinstance(s.metadata_buffer, dict):
+            raise TypeError("unknown representation")
         return {"buf": [enc(x) for x in s._buffer], "md": [enc_md(m) for m in s.metadata_buffer]}
     if k == "unique":
         if isinstance(s.seen, list):
@@ -343,10 +347,16 @@ def project_node(s, nd):
             return [enc(y) for y in s.seen.order]
         return [enc(y) for y in s.seen.keys()]
     if k == "collect":
+        if isinstance(s.cache, dict) or isinstance(s.metadata_cache, dict):
+            raise TypeError("unknown representation")
         return {"cache": [enc(x) for x in s.cache], "md": enc_md(list(s.metadata_cache))}
     if k == "zip":
+        if not isinstance(s.buffers, dict):
+            raise TypeError("unknown representation")
         return [[[enc(x), enc_md(m)] for (x, m) in s.buffers[up]] for up in s.upstreams]
     if k in ("combine_latest", "zip_latest"):
+        if not (isinstance(s.last, list) and isinstance(s.metadata, list) and len(s.last) == len(s.upstreams) == len(s.metadata)):
+            raise TypeError("unknown representation")
         d = {"last": [[] if s.metadata[i] is None else [enc(s.last[i])] for i in range(len(s.last))],
              "md": [[] if s.metadata[i] is None else [enc_md(s.metadata[i])] for i in range(len(s.metadata))],
              "missing": sorted(s.upstreams.index(u) + 1 for u in s.missing)}
@@ -356,8 +366,19 @@ def project_node(s, nd):
     return []
 
 
-def project(built):
-    return [project_node(built.nodes[i], nd) for i, nd in enumerate(built.prog, start=1)]
+def project(built, opaque=None):
+    """internal state of every node as SyncFlow records it.  The projection reads private attributes; when a node's
+    representation is not the one known here (a refactoring that keeps the behaviour), the node is reported in `opaque`
+    and its state is simply not compared -- behaviour (deliveries, emissions, counters) still is."""
+    out = []
+    for i, nd in enumerate(built.prog, start=1):
+        try:
+            out.append(project_node(built.nodes[i], nd))
+        except Exception:
+            out.append([])
+            if opaque is not None:
+                opaque.append(i)
+    return out
 
 
 def project_downs(built):
